@@ -262,6 +262,17 @@ class Interp:
         if isinstance(s, P.FUNC):
             env[s.name] = Closure(s, env, self)
             return
+        if isinstance(s, ast.Try) and not s.finalbody and not s.orelse:
+            try:
+                self.exec_block(s.body, env)
+            except PyRaise as e:
+                for h in s.handlers:
+                    names = ["BaseException"] if h.type is None else [P.un(x).split(".")[-1] for x in (h.type.elts if isinstance(h.type, ast.Tuple) else [h.type])]
+                    if e.name in names or "Exception" in names or "BaseException" in names or (e.name in ("IndexError", "KeyError") and "LookupError" in names):
+                        self.exec_block(h.body, env)
+                        return
+                raise
+            return
         raise Unsupported(f"statement {type(s).__name__}: {P.un(s)[:80]}")
 
     def _assign(self, t, v, env):
@@ -380,6 +391,20 @@ class Interp:
             raise Unsupported(f"binop {P.un(e)} on {type(a).__name__}/{type(b).__name__}")
         if isinstance(e, ast.Call):
             return self.eval_call(e, env)
+        if isinstance(e, ast.Subscript):
+            base = self.eval(e.value, env)
+            if not isinstance(base, (tuple, list, str)):
+                raise Unsupported(f"subscript of {type(base).__name__}")
+            sl = e.slice
+            try:
+                if isinstance(sl, ast.Slice):
+                    lo = self.eval(sl.lower, env) if sl.lower is not None else None
+                    hi = self.eval(sl.upper, env) if sl.upper is not None else None
+                    st = self.eval(sl.step, env) if sl.step is not None else None
+                    return base[lo:hi:st]
+                return base[self.eval(sl, env)]
+            except IndexError:
+                raise PyRaise("IndexError")
         if isinstance(e, ast.Lambda):
             return Closure(e, env, self)
         raise Unsupported(f"expression {type(e).__name__}: {P.un(e)[:80]}")
